@@ -76,7 +76,8 @@ def gen_qualifiers(rng, style="plain", max_keys=3, exclude_values="", key_pool=N
            "plain"   -> identifier-like keys and values
            "adv"     -> adversarial VALUES (keys plain, lower case)
            "advkey"  -> adversarial KEYS and values
-    `exclude_values` removes letters from the value alphabet (the GFF3 re-parse leg excludes `,` and `"`).
+    `exclude_values` removes letters from the value (and adversarial key) alphabet (the GFF3 re-parse leg
+    excludes `,` and `"`).
     Keys never collide after ASCII lower-casing (GFF3 export lower-cases keys), never start with an upper-case
     letter unless taken from `key_pool`.
     """
@@ -89,7 +90,7 @@ def gen_qualifiers(rng, style="plain", max_keys=3, exclude_values="", key_pool=N
         if key_pool and rng.random() < 0.3:
             k = rng.choice(key_pool)
         elif style == "advkey":
-            k = adversarial_string(rng, 4)
+            k = adversarial_string(rng, 4, exclude=exclude_values)
         else:
             k = plain_string(rng, "q").lower()
         if k.lower() in seen:
